@@ -79,6 +79,8 @@ func main() {
 	budget := fs.Int("budget", 0, "seconds per process (overrides the tier default)")
 	keep := fs.Bool("keep", false, "keep the scratch directory")
 	noEvidence := fs.Bool("no-evidence", false, "do not write the evidence file")
+	warm := fs.Bool("warm", false, "only build (warms the build cache)")
+	selftest := fs.Int("selftest", 0, "determinism self-test: N runs per process, 30+ processes at GOMAXPROCS 1/4/16, run logs diffed")
 	_ = fs.Parse(os.Args[2:])
 	pc := props[id]
 	if pc == nil {
@@ -95,6 +97,20 @@ func main() {
 		} else if i, err := strconv.ParseInt(v, 10, 64); err == nil {
 			seed = uint64(i)
 		}
+	}
+	if *warm {
+		scratch := fmt.Sprintf("/dev/shm/verif-warm-%d", os.Getpid())
+		defer os.RemoveAll(scratch)
+		if _, err := build(id, pc, scratch); err != nil {
+			fmt.Println(err)
+			os.RemoveAll(scratch)
+			os.Exit(2)
+		}
+		os.RemoveAll(scratch)
+		return
+	}
+	if *selftest > 0 {
+		os.Exit(selfTest(id, pc, seed, *selftest))
 	}
 	os.Exit(runCheck(id, pc, *tier, seed, *replay, *procs, *budget, *keep, *noEvidence))
 }
@@ -279,6 +295,21 @@ func runCheck(id string, pc *propCfg, tier string, seed uint64, replay string, p
 			budget = pc.ThoroughS
 		}
 	}
+	// regression replays: minimised traces of findings that were repaired; they must
+	// not fail again
+	var regressLines []string
+	regressFail := 0
+	regs, _ := filepath.Glob(filepath.Join(verifDir, "regress", id, "*.json"))
+	sort.Strings(regs)
+	for _, rp := range regs {
+		switch doReplay(id, bin, rp, false) {
+		case 1:
+			regressFail++
+			regressLines = append(regressLines, fmt.Sprintf("VIOLATION property=%s replay=%s\n  a repaired finding has returned (regression replay reproduces its violation)", id, rp))
+		case 2:
+			regressLines = append(regressLines, fmt.Sprintf("note: regression replay %s ended with a different outcome than recorded (code changed); exploration decides", rp))
+		}
+	}
 	outDir := filepath.Join(scratch, "out")
 	repDir := filepath.Join(scratch, "replays")
 	_ = os.MkdirAll(outDir, 0o755)
@@ -372,8 +403,11 @@ func runCheck(id string, pc *propCfg, tier string, seed uint64, replay string, p
 	}
 	sort.Strings(classes)
 	exit := 0
-	violations := 0
-	var outLines []string
+	violations := regressFail
+	outLines := regressLines
+	if regressFail > 0 {
+		exit = 1
+	}
 	_ = os.MkdirAll(filepath.Join(verifDir, "replays"), 0o755)
 	for _, c := range classes {
 		fl := byClass[c]
@@ -432,7 +466,7 @@ func runCheck(id string, pc *propCfg, tier string, seed uint64, replay string, p
 		}
 	}
 	if !noEvidence {
-		if err := writeEvidence(id, pc, tier, seed, &merged, len(keys), wall, buildS, violations, procs, budget, classes); err != nil {
+		if err := writeEvidence(id, pc, tier, seed, &merged, len(keys), wall, buildS, violations, procs, budget, classes, len(regs)); err != nil {
 			outLines = append(outLines, "INFRASTRUCTURE-ERROR evidence: "+err.Error())
 			if exit == 0 {
 				exit = 2
@@ -522,7 +556,7 @@ func doReplay(id, bin, path string, print bool) int {
 	return 2
 }
 
-func writeEvidence(id string, pc *propCfg, tier string, seed uint64, m *summary, distinct int, wall, buildS float64, violations, procs, budget int, classes []string) error {
+func writeEvidence(id string, pc *propCfg, tier string, seed uint64, m *summary, distinct int, wall, buildS float64, violations, procs, budget int, classes []string, regressN int) error {
 	samples := make([]interface{}, 0, len(m.Samples))
 	for _, s := range m.Samples {
 		var v interface{}
@@ -561,6 +595,7 @@ func writeEvidence(id string, pc *propCfg, tier string, seed uint64, m *summary,
 		"components":             pc.Components,
 		"violation_classes_seen": classes,
 		"build_s":                buildS,
+		"regression_replays":     regressN,
 	}
 	ev := map[string]interface{}{
 		"property_id": id,
@@ -578,4 +613,76 @@ func writeEvidence(id string, pc *propCfg, tier string, seed uint64, m *summary,
 	}
 	_ = os.MkdirAll(filepath.Join(verifDir, "evidence"), 0o755)
 	return os.WriteFile(filepath.Join(verifDir, "evidence", id+".json"), b, 0o644)
+}
+
+// selfTest proves determinism on a sample: the same seeds are run in many separate
+// processes at several GOMAXPROCS values with full tracing; every run log must be
+// byte-identical.
+func selfTest(id string, pc *propCfg, seed uint64, n int) int {
+	scratch := fmt.Sprintf("/dev/shm/verif-self-%s-%d", strings.ToLower(id), os.Getpid())
+	defer os.RemoveAll(scratch)
+	bin, err := build(id, pc, scratch)
+	if err != nil {
+		return infra("%v", err)
+	}
+	type job struct {
+		gmp, rep int
+	}
+	var jobs []job
+	for _, g := range []int{1, 4, 16} {
+		for r := 0; r < 11; r++ {
+			jobs = append(jobs, job{g, r})
+		}
+	}
+	logs := make([]string, len(jobs))
+	var wg sync.WaitGroup
+	sem := make(chan struct{}, 8)
+	var mu sync.Mutex
+	bad := ""
+	for i, j := range jobs {
+		wg.Add(1)
+		go func(i int, j job) {
+			defer wg.Done()
+			sem <- struct{}{}
+			defer func() { <-sem }()
+			lp := filepath.Join(scratch, fmt.Sprintf("runlog-%d-%d", j.gmp, j.rep))
+			env := append(goEnv(), "VERIF_MODE=explore", fmt.Sprintf("VERIF_SEED=%d", seed), "VERIF_PROC=0",
+				fmt.Sprintf("VERIF_RUNS=%d", n), "VERIF_BUDGET_S=100000", "VERIF_TRACE=1", "VERIF_RUNLOG="+lp,
+				"VERIF_OUT="+lp+".sum", "VERIF_MAXFAIL=1000000", fmt.Sprintf("GOMAXPROCS=%d", j.gmp))
+			cmd := exec.Command(bin, "-test.run", "^TestSim$", "-test.timeout", "60m", "-test.count=1")
+			cmd.Env = env
+			out, err := cmd.CombinedOutput()
+			if err != nil {
+				mu.Lock()
+				bad = fmt.Sprintf("process failed: %v\n%s", err, tail(string(out), 2000))
+				mu.Unlock()
+				return
+			}
+			b, _ := os.ReadFile(lp)
+			logs[i] = string(b)
+		}(i, j)
+	}
+	wg.Wait()
+	if bad != "" {
+		return infra("%s", bad)
+	}
+	diffs := 0
+	for i := 1; i < len(logs); i++ {
+		if logs[i] != logs[0] {
+			diffs++
+			a, b := strings.Split(logs[0], "\n"), strings.Split(logs[i], "\n")
+			for k := 0; k < len(a) && k < len(b); k++ {
+				if a[k] != b[k] {
+					fmt.Printf("DIFF job %d (GOMAXPROCS=%d) line %d:\n  %s\n  %s\n", i, jobs[i].gmp, k, a[k], b[k])
+					break
+				}
+			}
+		}
+	}
+	lines := strings.Count(logs[0], "\n")
+	fmt.Printf("selftest %s: %d processes x %d runs (GOMAXPROCS 1/4/16), %d processes differ\n", id, len(jobs), lines, diffs)
+	if diffs > 0 || lines == 0 {
+		return 2
+	}
+	return 0
 }
